@@ -283,6 +283,16 @@ impl<'a> GetLastStateProofProcess<'a> {
             }
         }
 
+        if start_block_number > last_block_number {
+            // The blocks in [start, last) are asked for; a start block after the last block cannot be
+            // served (and `last_block_number - start_block_number` would underflow).
+            let errmsg = format!(
+                "the start block number ({start_block_number}) is greater than \
+                the last block number ({last_block_number})"
+            );
+            return StatusCode::InternalError.with_context(errmsg);
+        }
+
         let (sampled_numbers, last_n_numbers) = if last_block_number - start_block_number
             <= last_n_blocks
         {
